@@ -39,8 +39,8 @@ def _dyadic_case(draw, tier):
         cfg["halfway"] = True
         cfg["dt"] = None
         if not cfg["tol"] > 0:
-            cfg["tol"] = draw(st.sampled_from([1e-2, 1e-3, 1e-6]))
-            cfg["grid"] = draw(st.sampled_from([g for g in (100, 1000, 10 ** 6) if g <= round(1 / cfg["tol"])]))
+            cfg["tol"] = draw(st.sampled_from(history.TOLS))
+            cfg["grid"] = draw(st.sampled_from([g for g in (100, 1000, 10 ** 6) if g <= round(1 / cfg["tol"])] or [100]))
     ops_a = draw(history.op_lists(cfg, min_ops=1, max_ops=10, max_sweep=30, allow_point=True))
     ops_b = draw(history.op_lists(cfg, min_ops=0, max_ops=10, max_sweep=30, allow_point=True))
     targets = draw(history.op_lists(cfg, min_ops=1, max_ops=5, max_sweep=6, allow_point=True))
